@@ -264,6 +264,22 @@ func (r *Report) finish(id string, cfg *PropCfg, writeEvidence bool) int {
 	}
 	fmt.Printf("property=%s tier=%s functions=%d obligations=%d discharged=%d bounded=%d instances=%d paths=%d known=%d violations=%d wall=%.1fs (load %.1f gen %.1f solve %.1f)\n",
 		id, tier, len(r.Targets), proofObl, discharged, boundedObl, len(r.Engine.obs), r.Engine.paths, len(knownHit), len(violations), r.WallS, r.LoadS, r.GenS, r.SolveS)
+	if verbose {
+		sl := append([]*Oblig(nil), r.Engine.obs...)
+		sort.Slice(sl, func(i, j int) bool { return sl[i].Ms > sl[j].Ms })
+		var tot int64
+		nt := 0
+		for _, o := range sl {
+			if !o.Triv {
+				nt++
+				tot += o.Ms
+			}
+		}
+		fmt.Printf("  non-trivial instances: %d, summed solver time %d ms\n", nt, tot)
+		for i := 0; i < 8 && i < len(sl); i++ {
+			fmt.Printf("  slow: %-70s %6d ms %s %s\n", sl[i].Name, sl[i].Ms, sl[i].Solver, sl[i].Result)
+		}
+	}
 	if len(violations) > 0 {
 		for _, v := range violations {
 			fmt.Println(v)
